@@ -38,7 +38,16 @@ RULE = ('One execution per case on the real Connection over the virtual '
         'connect / after handshake / after request; for selected sets (all '
         'non-singleton sets at thorough) each of the 250 supported and 119 '
         'known-unsupported numbers} x delivery {eager, lazy; byte-wise and '
-        'failing-send variants for selected sets}.  Constructor: every '
+        'failing-send variants for selected sets}; for every non-singleton '
+        'set also inconsistent (number, name) replies: number in {unknown, '
+        'known-unsupported, supported-but-not-allowed, allowed} x name of '
+        '{an allowed, a supported-but-not-allowed, a known-unsupported '
+        'version, no version} - the number alone decides; and collections '
+        'with duplicates (set / list / tuple): one protocol denoted by two '
+        'or all of its names, name + number, the same number 2-3 times '
+        '(expected: no status query), and multi-version collections with '
+        'repeated members - the expectation follows the SET of protocol '
+        'numbers denoted.  Constructor: every '
         'known-unsupported number and name and unknown numbers/names as '
         'allowed member (alone, with valid ones) or as initial_version.  '
         'status(): allowed {None, singleton, pair, name} x the same server '
@@ -286,7 +295,9 @@ def body(W, case):
         kw['auth_token'] = _Token(PROFILE)
     if case.get('allowed') is not None:
         al = case['allowed']
-        kw['allowed_versions'] = list(al) if case.get('aslist') else set(al)
+        coll = case.get('coll') or ('list' if case.get('aslist') else 'set')
+        kw['allowed_versions'] = {'set': set, 'list': list,
+                                  'tuple': tuple}[coll](al)
     if case.get('initial') is not None:
         kw['initial_version'] = case['initial']
 
@@ -666,6 +677,13 @@ def run_case(ctx, case):
         ctx.cls('connect expect %s' % exp[0])
         ctx.cls('connect server %s' % bc)
         ctx.cls('connect set %s/%s' % (case['setkind'], case['form']))
+        b = tuple(case['beh'])
+        if b[0] == 'proto' and b[2] in T.known_names and \
+                T.known_names[b[2]] != b[1]:
+            ctx.cls('reported name denotes another protocol; expect %s'
+                    % exp[0])
+        if case['form'] == 'dup':
+            ctx.cls('duplicate members; expect %s' % exp[0])
         if exp[0] == 'fallback':
             nums = set(T.sup) if case['allowed'] is None else \
                 {T.num(v) for v in case['allowed']}
@@ -762,6 +780,35 @@ def lite_behaviours(T, rng, status_extra=False):
     return B
 
 
+def inconsistent_behaviours(T, members):
+    """(number, name) pairs in which the name denotes another protocol than
+    the number: number in {unknown, known-unsupported, supported but not
+    allowed, allowed} x name of {an allowed, a supported but not allowed, a
+    known-unsupported version, no known version}."""
+    nums = set(T.sup) if members is None else set(members)
+    allowed = sorted(nums, key=T.rank.get)
+    disallowed = [p for p in T.R if p not in nums] or \
+        [p for p in T.sup if p not in nums]
+    numbers = [5000, T.unsup[len(T.unsup) // 3], T.unsup[-1],
+               allowed[0], allowed[-1]]
+    if disallowed:
+        numbers += [disallowed[0], disallowed[-1]]
+    B = []
+    for p in numbers:
+        name_src = [q for q in (allowed[-1], allowed[0]) if q != p][:1]
+        name_src += [q for q in reversed(disallowed) if q != p][:1]
+        name_src += [q for q in (T.unsup[1], T.unsup[-2]) if q != p][:1]
+        for q in name_src:
+            for nm in sorted({T.reported_name(q), T.known_names_of[q][-1]}):
+                B.append(('proto', p, nm))
+        B.append(('proto', p, ODD_NAME))
+    out = []
+    for b in B:
+        if b not in out:
+            out.append(b)
+    return out
+
+
 def big_behaviours(T):
     return [('proto', p, T.reported_name(p)) for p in T.sup + T.unsup]
 
@@ -856,6 +903,52 @@ def enumerate_cases(ctx):
             C(sk, mem, 'num', None, b, 'byte')
             if b[0] == 'close' or th:
                 C(sk, mem, 'num', None, b, 'raise')
+    # H: the reported name is inconsistent with the reported number (the
+    #    name is a known id of ANOTHER protocol, or unknown): the number decides
+    for sk, mem in multi:
+        for b in inconsistent_behaviours(T, mem):
+            for d in (('eager', 'lazy') if th or sk != 'pair' else ('eager',)):
+                for ini in ((None, v340) if th else (None,)):
+                    C(sk, mem, 'num', ini, b, d)
+    # I: collections with duplicates - several members denote one protocol;
+    #    behaviour follows the SET of protocol numbers denoted
+    def D(setkind, al, coll, initial, beh, delivery):
+        cases.append({'kind': 'connect', 'setkind': setkind, 'form': 'dup',
+                      'allowed': list(al), 'coll': coll, 'initial': initial,
+                      'beh': list(beh), 'delivery': delivery, 'env': 0})
+    dup_single = []
+    for p in T.sup:
+        ns = T.names_of[p]
+        if len(ns) > 1:
+            dup_single.append((ns, 'set'))
+            if p in R or th:
+                dup_single += [([ns[0], ns[-1]], 'set'),
+                               ([ns[-1], ns[0]], 'list'), (ns, 'tuple')]
+        if p in R or th:
+            dup_single += [([ns[0], p], 'set'), ([p, ns[-1]], 'list'),
+                           ([p, p], 'list'), ([p, p], 'tuple'),
+                           ([p, p, ns[0], p], 'list')]
+    for al, coll in dup_single:
+        me = T.num(al[0])
+        other = R[0] if me != R[0] else R[1]
+        for b in (('proto', me, T.reported_name(me)),
+                  ('proto', other, T.reported_name(other)), ('empty',),
+                  ('nover',)):
+            for ini in (None, other):
+                for d in ('eager', 'lazy'):
+                    D('singleton-dup', al, coll, ini, b, d)
+    dup_multi = []
+    for sk, mem in (pairs if th else adjacent + [p_old_new, p_pre]) + \
+            prefixes + full:
+        a, b_ = mem[0], mem[-1]
+        dup_multi += [(sk, mem + [a], 'list'), (sk, [b_] + mem + [b_], 'tuple'),
+                      (sk, mem + [T.first_name(a)], 'set'),
+                      (sk, [T.last_name(b_)] + mem, 'list'),
+                      (sk, mem + mem, 'list')]
+    for sk, al, coll in dup_multi:
+        for b in lite:
+            D(sk + '-dup', al, coll, None, b, 'eager')
+
     # G: every supported number and name is accepted and resolved
     for p in T.sup:
         C('singleton', [p], 'num', None, single_beh[1])
@@ -962,7 +1055,12 @@ def run(ctx):
             'connect server reports-supported-not-allowed',
             'connect server reports-known-unsupported',
             'connect server reports-unknown',
-            'connect server reports-allowed-pre']
+            'connect server reports-allowed-pre',
+            'reported name denotes another protocol; expect login',
+            'reported name denotes another protocol; expect mismatch',
+            'duplicate members; expect direct',
+            'duplicate members; expect login',
+            'duplicate members; expect mismatch']
     missing = [k for k in need if not ctx.classes.get(k)]
     if missing and not ctx.violations:
         from vf.runner import ToolError
